@@ -235,3 +235,47 @@ theorem cycle_eq {V} (cond : Tag → Bool) (body : Tag → V) (p : Tag) (n : Nat
       rw [this]
 
 end SFV.Loop
+
+namespace SFV.Loop
+open SFV
+
+/-- tags of the data tokens of an event list -/
+def dataTags : List CEv → List Tag
+  | [] => []
+  | .data t :: r => t :: dataTags r
+  | _ :: r => dataTags r
+
+/-- tags given by the combinator to a list of arrivals, starting from counters `m` -/
+def numberFrom : Counters → List Tag → List Tag
+  | _, [] => []
+  | m, t :: ts => (number m t).2 :: numberFrom (number m t).1 ts
+
+/-- the port is read at every event of the list (the step has not stopped before its end) -/
+def Reads : LCSt → List CEv → Prop
+  | _, [] => True
+  | s, e :: es => s.c.reading = true ∧ Reads (lcstep s e) es
+
+theorem lcstep_fields (s : LCSt) (e : CEv) (hr : s.c.reading = true) :
+    (lcstep s e).c = cstep s.c e ∧
+    (lcstep s e).out = s.out ++ (match e with | .data t => [(number s.cnt t).2] | _ => []) ∧
+    (lcstep s e).cnt = (match e with | .data t => (number s.cnt t).1 | _ => s.cnt) := by
+  unfold lcstep
+  simp only [hr, Bool.not_true, Bool.false_eq_true, if_false]
+  cases e <;> (split <;> simp)
+
+/-- **the step's output log.** As long as the port is read, what a one-port `LoopCombinatorStep` puts on its output port is the
+    combinator's numbering of the data tokens it received, in order (iteration terminations and the termination token add nothing) -/
+theorem lcrun_out : ∀ (es : List CEv) (s : LCSt), Reads s es →
+    (es.foldl lcstep s).out = s.out ++ numberFrom s.cnt (dataTags es) := by
+  intro es
+  induction es with
+  | nil => intro s _; simp [dataTags, numberFrom]
+  | cons e es ih =>
+    intro s h
+    obtain ⟨hr, hrest⟩ := h
+    obtain ⟨_, ho, hc⟩ := lcstep_fields s e hr
+    simp only [List.foldl_cons]
+    rw [ih (lcstep s e) hrest, ho, hc]
+    cases e <;> simp [dataTags, numberFrom]
+
+end SFV.Loop
